@@ -11,7 +11,7 @@ CHECKS = {
         "byte doubling as terminator at full capacity; no derived-length read follows a possibly growing publication or terminator overwrite in any mutator; every defaulted parameter of the member "
         "declarations equals [basic.string]'s; iterator insert/erase/replace mutate for every ordering of valid positions incl. end() and empty ranges; conversions to std::string/streams pass "
         "(data(), size()); the 30 relational overloads and compare_impl realise the 3-way ordering; clamps and offsets use the object the position was validated against; the published length is "
-        "the checked one; cursor + remaining count is invariant in the find loops; traits compare/find over the own buffer end at or before size(); forwarding overloads call their own worker with every parameter; the storage classes instantiated for wchar_t/char16_t/char32_t/char access the buffer only through its own element type (no reinterpretation as another non-character type). The sign table of compare_impl covers ranges that start at the same address; a shrinking publication adjust_size(-k) has k capped by the current size.",
+        "the checked one; cursor + remaining count is invariant in the find loops; traits compare/find over the own buffer end at or before size(); forwarding overloads call their own worker with every parameter; the storage classes instantiated for wchar_t/char16_t/char32_t/char access the buffer only through its own element type (no reinterpretation as another non-character type). The sign table of compare_impl covers ranges that start at the same address; a shrinking publication adjust_size(-k) has k capped by the current size. empty() is size() == 0 in one of its spellings.",
    note="Search results, shifted characters, copy/substr counts and stream extraction are not decided; trusts sa/ceval.py, sa/flow.py and the default-argument table transcribed from [basic.string]."),
  "C02": dict(level="other", design="4.2",
    technique="checks-before-effects path rule with a may-throw summary over the member call graph, guard-dominance (same-object) rule for position offsets and size subtractions by linear entailment, published-equals-checked rule, derived-length-after-publication typestate, symbolic summaries of the checking functions (paths through helpers to return/throw, contract by entailment), write/read extents by linear entailment with loops decided by an exact two-iteration pass plus an induction pass over inferred invariants",
@@ -65,7 +65,7 @@ CHECKS = {
         "==/!= have the truth table of real&&imag equality along every path, unary -/+ negate both parts / return the operand; each binary operator X builds its result from the left operand and applies X= with the right; compound "
         "scalar forms touch exactly the parts complex arithmetic says; member assignments are (real<-real, imag<-imag) symmetric; the textbook and Annex G "
         "mul/div (first attempt, recovery, scaled quotient) compute ac-bd, ad+bc, (ac+bd)/(cc+dd), (bc-ad)/(cc+dd) as polynomials; Annex G boxing idioms "
-        "classify the component they box, the divisor scale is logb(max(|c|,|d|)), scalbn exponents agree; all closure-kind combinations compile. A binary operation with at least one IEEE operand yields an IEEE xcomplex in either order (witnesses); the divisor is rescaled whenever its exponent is finite, under no further threshold. The divisor scale of the IEEE division uses the NaN-ignoring fmax. The Annex G mode survives unary operators, conj, operations with a scalar and the elementary functions; xcomplex<CTR> defaults the imaginary closure to CTR.",
+        "classify the component they box, the divisor scale is logb(max(|c|,|d|)), scalbn exponents agree; all closure-kind combinations compile. A binary operation with at least one IEEE operand yields an IEEE xcomplex in either order (witnesses); the divisor is rescaled whenever its exponent is finite, under no further threshold. The divisor scale of the IEEE division uses the NaN-ignoring fmax. The Annex G mode survives unary operators, conj, operations with a scalar and the elementary functions; xcomplex<CTR> defaults the imaginary closure to CTR. == never compares the object representation (helpers followed).",
    note="Rounding, special-value outcomes and scaling accuracy are numeric and NOT decided; trusts the polynomial evaluator and clang/g++."),
  "C11": dict(level="other", design="4.9",
    technique="sibling-storage pairing rule over every member/constructor pattern of both container families, ==/!= shape, paired-iterator lockstep (symbolic positions), default-initialisation witnesses, contents of the built storages (zeroing flags), reference-parameter-before-reallocation typestate",
@@ -73,7 +73,7 @@ CHECKS = {
         "every use of the first storage must be mirrored in order by the same operation on the second with the same size/index argument and the "
         "prescribed fill (none->false, plain->true, v.value()->v.has_value(), .real()->.imag()), results are built (first, second); operator== compares "
         "both storages; the paired iterators move/compare both sub-iterators alike; the array variants size both storages in their default constructor "
-        "and are not trivially default constructible; make_sequence yields value-initialised / filled storages; a value passed by reference is consumed before the storage it may alias is reallocated; == of the flag bitset covers every block. Forward, const and reverse iteration of all four containers (vector and array variants) instantiates; the block-count and index helpers of the flag bitset are folded exactly.",
+        "and are not trivially default constructible; make_sequence yields value-initialised / filled storages; a value passed by reference is consumed before the storage it may alias is reallocated; == of the flag bitset covers every block. Forward, const and reverse iteration of all four containers (vector and array variants) instantiates; the block-count and index helpers of the flag bitset are folded exactly. A write through an element proxy takes value and flag from the source unconditionally (C04's constructor/assignment rule, strict).",
    note="Assumes make_sequence and the std containers behave as specified; at()/resize of the flag bitset itself belong to C03."),
  "C12": dict(level="other", design="4.10",
    technique="symbolic-position (polynomial) evaluation of every derived operator and every iterator primitive over the template patterns; ordering truth tables; primitive exhaustiveness; sign-conversion lint on instantiated members",
@@ -116,7 +116,7 @@ CHECKS = {
    text="For each of first/last/subspan (static and dynamic), operator[], front, back the TCB_SPAN_EXPECT condition is converted to linear facts "
         "(atoms that add two unbounded unsigned values or subtract unordered ones are rejected and reported) and must entail that the returned "
         "{data()+X, Y} lies in [0,size()] and is exactly the requested sub-range; at() must reject every idx >= size() with out_of_range; begin/end/"
-        "size_bytes/empty/reverse iterators and the 8 constructors must have their defining shape; the contract-mode table is read from 4 configurations. A span is constructible from a container only with the container's own element type (cv added); a hand-written copy assignment takes over pointer and count on every path but true self-assignment.",
+        "size_bytes/empty/reverse iterators and the 8 constructors must have their defining shape; the contract-mode table is read from 4 configurations. A span is constructible from a container only with the container's own element type (cv added); a hand-written copy assignment takes over pointer and count on every path but true self-assignment. The non-member first/last/subspan forward to the member of their own name; make_span views every element of what it is given.",
    note="Symbolic over Extent/Offset/Count/size(); trusts clang's pattern AST and sa/linear.py; assumes size()==Extent for static spans; validity of the caller's own range is outside the check."),
  "C04": dict(level="proof", design="4.4",
    technique="presence abstract interpretation (truth-table evaluation) of every overload body over clang's AST of the template patterns",
